@@ -337,6 +337,21 @@ def check_case(case):
           kwargs[p] = 'K:' + p
           supplied.add(p)
       rec = b.call(args, kwargs)
+      if 'operative_inside' in rec:
+        # read from inside the running configurable: the call in progress has been made, so its
+        # own section (under the scope it runs in) is there already
+        inside = rec.pop('operative_inside')
+        own = ('/'.join(active) + '/' if active else '') + b.selector
+        secs = set()
+        for sec in re.findall(r'^# Parameters for (.*):$', inside, flags=re.M):
+          sc, _, nm = sec.rpartition('/')
+          cands = [f for f in [x.selector for x in builts] if f == nm or f.endswith('.' + nm)]
+          if len(cands) == 1:
+            secs.add((sc + '/' if sc else '') + cands[0])
+        require(own in secs, 'running-call-not-in-operative-config',
+                lambda: f'{own} reads the operative config from its own body and is not in it:\n'
+                        f'{inside}')
+        labels.add('operative-config-read-from-inside-a-call')
       if shape['kind'] == 'method':
         # the harness obtains the instance by constructing the (configurable) host class
         record.setdefault(('/'.join(active), ('host', pi)), {})['hp'] = ['lit', None]
@@ -468,6 +483,8 @@ def strategy(draw):
       shape.update(pos=[], kwonly=[], kind=draw(st.sampled_from(['function', 'class_init'])))
       if not shape['dflt'] and not shape['kwdflt']:
         shape['dflt'] = ['v']
+    if draw(st.integers(0, 3)) == 0:
+      shape['read_operative'] = True
     defaulted = shape['dflt'] + shape['kwdflt']
     if defaulted and draw(st.booleans()):
       shape['nonliteral_defaults'] = draw(st.lists(st.sampled_from(defaulted), unique=True,
